@@ -11717,3 +11717,155 @@ func ruleIndexBoundExclusive(c *Ctx) {
 	})
 	c.Floor("index checks of execute followed by an indexed read", n, 2)
 }
+
+// ruleCallbackForEveryReceiver (C05, C16): a token transfer to a deployed contract calls the receiver's payment
+// callback - whoever the sender is. The callback is what lets a receiver refuse (Notary.onNEP17Payment panics on a
+// payment without deposit data): skipped for a transfer from an account to itself, `Notary.withdraw(from, to=Notary)`
+// removes the deposit, "sends" the GAS from Notary to Notary and halts - the deposit record is gone and the GAS stays
+// with the contract for ever. The conditions under which postTransfer goes on without the callback mention the
+// receiver, the callback switch and the contract lookup only - never the sender.
+func ruleCallbackForEveryReceiver(c *Ctx) {
+	fd := c.P.Func("pkg/core/native", "nep17TokenNative", "postTransfer")
+	if fd == nil {
+		c.Lost("callback-for-every-receiver.anchor", "nep17TokenNative.postTransfer not found")
+		return
+	}
+	info := fd.Pkg.TypesInfo
+	var from types.Object
+	for _, fl := range fd.Decl.Type.Params.List {
+		for _, nm := range fl.Names {
+			if nm.Name == "from" {
+				from = info.ObjectOf(nm)
+			}
+		}
+	}
+	if from == nil {
+		c.Lost("callback-for-every-receiver.param", "postTransfer has no parameter named from")
+		return
+	}
+	f := c.P.NewFuncCFG(fd)
+	cb := f.CallSites("pkg/core/interop/contract.CallFromNative")
+	if len(cb) == 0 {
+		c.Lost("callback-for-every-receiver.callout", "postTransfer no longer calls the receiver through contract.CallFromNative")
+		return
+	}
+	n := 0
+	bad := ""
+	for _, st := range fd.Decl.Body.List {
+		is, ok := st.(*ast.IfStmt)
+		if !ok || is.Pos() > cb[0].call.Pos() || len(is.Body.List) == 0 {
+			continue
+		}
+		if _, ret := is.Body.List[len(is.Body.List)-1].(*ast.ReturnStmt); !ret {
+			continue
+		}
+		n++
+		ast.Inspect(is.Cond, func(x ast.Node) bool {
+			if id, ok := x.(*ast.Ident); ok && info.ObjectOf(id) == from {
+				bad = types.ExprString(is.Cond)
+			}
+			return true
+		})
+	}
+	c.Floor("early exits of postTransfer before the callback", n, 2)
+	if bad == "" {
+		c.OK("callback-for-every-receiver", c.P.Pos(fd.Decl.Pos()), "whether the receiver's payment callback runs does not depend on the sender")
+	} else {
+		c.Fail("callback-for-every-receiver", c.P.Pos(fd.Decl.Pos()), fmt.Sprintf("postTransfer skips the receiver's payment callback under `%s`, a condition on the sender: the callback is how a receiving contract refuses a payment, and a transfer it never hears of - Notary.withdraw with the Notary contract itself as the receiver - removes the deposit record while the GAS never leaves the contract", bad))
+	}
+}
+
+// ruleTxStoredAtBlockIndex (C20, C06): a transaction record carries the index of the block that contains it
+// (Ledger.getTransactionHeight, the traceability window, GetTransaction all read it). Every writer of transaction
+// records - block processing and the block stage of state synchronisation - passes the Index of the block it is
+// storing, not a height kept elsewhere (the module's own height is advanced after the batch is persisted: one less).
+func ruleTxStoredAtBlockIndex(c *Ctx) {
+	n := 0
+	for _, fd := range c.P.AllFuncDecls() {
+		if fd.Decl.Body == nil || !strings.HasPrefix(pkgRel(fd.Pkg.Types), "pkg/core") {
+			continue
+		}
+		f := c.P.NewFuncCFG(fd)
+		for _, s := range f.CallSites("pkg/core/dao.(*Simple).StoreAsTransaction") {
+			if len(s.call.Args) < 2 {
+				continue
+			}
+			n++
+			key := fmt.Sprintf("tx-stored-at-block-index.%s#%d", shortSym(FuncKey(fd.Obj)), n)
+			arg := ast.Unparen(s.call.Args[1])
+			se, ok := arg.(*ast.SelectorExpr)
+			good := false
+			if ok && se.Sel.Name == "Index" {
+				t := f.Info.TypeOf(se.X)
+				if namedTypeIs(t, "pkg/core/block", "Block") || namedTypeIs(t, "pkg/core/block", "Header") {
+					good = true
+				}
+			}
+			if good {
+				c.OK(key, c.P.Pos(s.call.Pos()), "the transaction is recorded at the index of the block being stored")
+			} else {
+				c.Fail(key, c.P.Pos(s.call.Pos()), fmt.Sprintf("%s records a transaction at height `%s`, not at the Index of the block it is storing: Ledger.getTransactionHeight, the traceability window and GetTransaction read that number, so a node that stored the block this way answers differently from one that processed it - a later transaction that acts on the answer gives another state root", FuncKey(fd.Obj), types.ExprString(arg)))
+			}
+		}
+	}
+	c.Floor("writers of transaction records", n, 2)
+}
+
+// ruleRefusedLeavesRing (C20): the queue hands the element for height+1 to the ledger; whatever the ledger says, the
+// element leaves its slot before the loop waits for the next signal. A refused element that stays is the element Put
+// finds when the real block of that index arrives ("keep the old one") - every later delivery is thrown away and the
+// node never gets past that height. Every path of Queue.Run from the AddItem call to the next receive on the signal
+// channel passes the statement that empties the slot.
+func ruleRefusedLeavesRing(c *Ctx) {
+	fd := c.P.Func("pkg/network/bqueue", "Queue", "Run")
+	if fd == nil {
+		c.Lost("refused-leaves-ring.anchor", "bqueue.Queue.Run not found")
+		return
+	}
+	f := c.P.NewFuncCFG(fd)
+	var add []site
+	var clears, waits []site
+	for _, b := range f.G.Blocks {
+		if !b.Live {
+			continue
+		}
+		for i, nd := range b.Nodes {
+			ast.Inspect(nd, func(x ast.Node) bool {
+				switch y := x.(type) {
+				case *ast.CallExpr:
+					if se, ok := ast.Unparen(y.Fun).(*ast.SelectorExpr); ok && se.Sel.Name == "AddItem" {
+						add = append(add, site{b, i, nd, y})
+					}
+				case *ast.UnaryExpr:
+					if y.Op == token.ARROW && strings.HasSuffix(types.ExprString(y.X), "checkBlocks") {
+						waits = append(waits, site{b, i, nd, nil})
+					}
+				case *ast.AssignStmt:
+					for li, l := range y.Lhs {
+						if ix, ok := ast.Unparen(l).(*ast.IndexExpr); ok && strings.HasSuffix(types.ExprString(ix.X), ".queue") && li < len(y.Rhs) && strings.HasSuffix(types.ExprString(y.Rhs[li]), "nilQ") {
+							clears = append(clears, site{b, i, nd, nil})
+						}
+					}
+				}
+				return true
+			})
+		}
+	}
+	if len(add) == 0 || len(waits) == 0 {
+		c.Lost("refused-leaves-ring.shape", "Queue.Run no longer calls AddItem / waits on checkBlocks")
+		return
+	}
+	// the clears that lie after the AddItem call in the source (the catch-up loop at the top clears other slots)
+	var after []site
+	for _, s := range clears {
+		if s.node.Pos() > add[0].call.Pos() {
+			after = append(after, s)
+		}
+	}
+	ok, path := f.mustBefore([]*cfg.Block{add[0].blk}, waits, after, nil)
+	if ok && len(after) > 0 {
+		c.OK("refused-leaves-ring", c.P.Pos(add[0].call.Pos()), "whatever AddItem answers, the slot is emptied before the loop waits again")
+	} else {
+		c.Fail("refused-leaves-ring", c.P.Pos(add[0].call.Pos()), "Queue.Run can go from the AddItem call back to waiting for the next signal without emptying the element's slot ("+strings.Join(path, " -> ")+"): an element the ledger refused stays in the ring, Put keeps the old element of an index when the real block arrives, and the node never gets past that height however often it is given the right block")
+	}
+}
